@@ -110,6 +110,90 @@ def verdict (s : Sys) : Option (String × String) :=
       some ("poll-missed", if s.kind == .single then "single-never-delivered" else "lost-subscription")
     else none
 
+
+/-! ### Judging a history observed on the REAL code (`c13.judge`)
+
+The printed form of a history has no ghost identifiers, so the judgement is by counting, and it is
+sound for `ExactlyOnce` / `SingleOnce`: a verdict is returned only when no assignment of ghost
+identifiers can make the history satisfy the specification.  For a publication of `e` spanning
+positions `i..j` and a user observer `o` alive until `j`: fewer deliveries of `e` to `o` inside the
+span than `subscribe(o)` calls that returned before `i` means some subscription lost the event; more
+deliveries of `e` to `o` (anywhere) than `subscribe(o)` calls that began before `j` means a duplicate
+or an invented delivery.  The harness runs one thread at a time, so a publication that passed no
+synchronisation point (printed `p` without `P`) happened entirely at the position of its `p`. -/
+
+inductive JEv where
+  | sB (o : Nat) | sR (o : Nat) | pB (t e : Nat) | pE (t e : Nat) | d (o e : Nat) | x (o : Nat) | other
+deriving DecidableEq
+
+def parseJEv (tok : String) : Option JEv :=
+  let tag := tok.take 1
+  let fs := ((tok.drop 1).toString.splitOn ".").map String.toNat?
+  match tag.toString, fs with
+  | "S", [some _, some o] => some (.sB o)
+  | "s", [some _, some o] => some (.sR o)
+  | "P", [some t, some e] => some (.pB t e)
+  | "p", [some t, some e] => some (.pE t e)
+  | "d", [some _, some o, some e] => some (.d o e)
+  | "x", [some _, some o] => some (.x o)
+  | "n", [some _] => some .other
+  | "W", [some _] => some .other
+  | "w", [some _, some _] => some .other
+  | _, _ => none
+
+def countIn (h : List JEv) (lo hi : Nat) (p : JEv → Bool) : Nat :=
+  ((List.range h.length).filter fun m => lo ≤ m && m < hi && (match h[m]? with | some ev => p ev | none => false)).length
+
+def judgeSubject (h : List JEv) : Option String :=
+  let n := h.length
+  let obs := (h.filterMap fun | .sB o => some o | _ => none).eraseDups
+  (List.range n).findSome? fun j => match (h[j]? : Option JEv) with
+    | some (JEv.pE t e) =>
+      -- the matching begin: the last `P t e` before `j`, or `j` itself when the call passed no sync point
+      let i := ((List.range j).filter fun i => h[i]? == some (.pB t e)).getLast?.getD j
+      obs.findSome? fun o =>
+        let alive := countIn h 0 j (· == .x o) == 0
+        let ret := countIn h 0 i (· == .sR o)
+        let beg := countIn h 0 j (· == .sB o)
+        let inSpan := countIn h i j (· == .d o e)
+        let total := countIn h 0 n (· == .d o e)
+        if alive && inSpan < ret then some "lost"
+        else if total > beg then some "dup"
+        else none
+    | _ => none
+
+def judgeSingle (h : List JEv) : Option String :=
+  let n := h.length
+  let obs := (h.filterMap fun | .sB o => some o | _ => none).eraseDups
+  -- the emission: the first publication to begin (or to end, if it passed no sync point)
+  let first := (List.range n).findSome? fun i => match (h[i]? : Option JEv) with
+    | some (JEv.pB t e) => some (t, e) | some (JEv.pE t e) => some (t, e) | _ => none
+  match first with
+  | none => if countIn h 0 n (fun | .d _ _ => true | _ => false) > 0 then some "invent" else none
+  | some (t, e) =>
+    if countIn h 0 n (fun | .d _ e' => e' != e | _ => false) > 0 then some "wrong-value" else
+    match (List.range n).find? fun j => h[j]? == some (.pE t e) with
+    | none => none
+    | some j =>
+      obs.findSome? fun o =>
+        let alive := countIn h 0 n (· == .x o) == 0
+        let ret := countIn h 0 n (· == .sR o)
+        let beg := countIn h 0 n (· == .sB o)
+        let total := countIn h 0 n (· == .d o e)
+        -- judged only when every subscribe(o) call that began has returned (the history is then settled)
+        if alive && ret == beg && j < n && total < ret then some "single-missing"
+        else if total > beg then some "dup"
+        else none
+
+def judge (kind : String) (hist : String) : String :=
+  let toks := if hist == "-" then [] else hist.splitOn ","
+  match toks.mapM parseJEv with
+  | none => "unparsed"
+  | some h =>
+    match (if kind == "single" then judgeSingle h else judgeSubject h) with
+    | some v => "viol:" ++ v
+    | none => "ok"
+
 def algoOf (n : Nat) : Option Algo := if n == 0 then some .pinned else if n == 1 then some .repaired else none
 
 def runReq (a : Algo) (kd : Kind) (behs : List Beh) (progs : List (List Op)) (sched : List Nat) : Sys :=
@@ -118,6 +202,9 @@ def runReq (a : Algo) (kd : Kind) (behs : List Beh) (progs : List (List Op)) (sc
 def handle (op : String) (args : List String) : Option String :=
   match op, args with
   | "c13.algo", [] => some "*\t*"
+  | "c13.judge", [kind, hist] => some (judge kind hist ++ "\t*")
+  -- forced-mode runs have no model counterpart: the history observed on the real code is judged by `c13.judge`
+  | "c13.force", [_, _, _, _] => some "*\t*"
   | "c13.explore", [algo, kind, what, variant] =>
     -- bounded model exploration (all interleavings); `*` in the spec column: it has no counterpart on the real code
     let a : Algo := if algo == "pinned" then .pinned else .repaired
